@@ -27,6 +27,10 @@ pub enum Op {
     Position,
     SetPolicy(PolSpec),
     IterSlot(usize),
+    /// `shrink_buffer_to_fit()` on a slot, then iterate it
+    ShrinkSlot(usize),
+    /// clone slot a into slot b (`RecordSet: Clone`), then iterate b
+    CloneSlot(usize, usize),
     IntoRecords,
 }
 
@@ -41,6 +45,8 @@ impl Op {
             Op::Position => "position",
             Op::SetPolicy(_) => "setpolicy",
             Op::IterSlot(_) => "iterslot",
+            Op::ShrinkSlot(_) => "shrinkslot",
+            Op::CloneSlot(..) => "cloneslot",
             Op::IntoRecords => "intorecords",
         }
     }
@@ -1071,6 +1077,29 @@ pub fn run_history(case: &HCase, opts: RunOpts) -> HOutcome {
                 run.trace.push(format!("set_policy {:?}", spec));
             }
             Op::IterSlot(s) => run.do_iter_slot(*s),
+            Op::ShrinkSlot(s) => {
+                let before = run.sets[*s].len();
+                if let Err(c) = guarded(|| run.sets[*s].shrink()) {
+                    run.caught(c);
+                } else {
+                    if run.sets[*s].len() != before || run.sets[*s].buf_capacity() < run.sets[*s].buffer().len() {
+                        run.dev("order", "shrink-changed-set", "shrink_buffer_to_fit() changed the length of the set".into());
+                    }
+                    run.do_iter_slot(*s);
+                }
+            }
+            Op::CloneSlot(a, b) => {
+                if a != b {
+                    match guarded(|| run.sets[*a].clone()) {
+                        Ok(c) => {
+                            run.sets[*b] = c;
+                            run.slots[*b] = run.slots[*a].clone();
+                            run.do_iter_slot(*b);
+                        }
+                        Err(c) => run.caught(c),
+                    }
+                }
+            }
             Op::IntoRecords => run.do_into_records(),
         }
         if run.stats.first_injected_op.is_none() && !run.rig.src.borrow().injected.is_empty() {
